@@ -502,6 +502,11 @@ def init_oracle(c, r):
     if not (len(r["params"]) == len(r["foms"]) == len(r["units"]) == st["total"]):
         out.append(("count", "asked for %d points, got %d parameter vectors / %d unit vectors / %d figures of merit"
                     % (st["total"], len(r["params"]), len(r["units"]), len(r["foms"]))))
+    valid = [(d[0], d[1], d[2]) for d in r["draws"] if d[2] is not None]
+    got = list(zip(r["units"], r["params"], r["foms"]))
+    if len(got) == st["total"] and valid != got:
+        out.append(("filter", "the points returned are not exactly the drawn points with a legal figure of merit, in drawing order: "
+                    "%d legal draws (figures of merit %r), %d returned" % (len(valid), [unhex(v[2]) for v in valid][:8], len(got))))
     drawn = {tuple(d[1]): d[0] for d in r["draws"]}
     for i, (u, p, f) in enumerate(zip(r["units"], r["params"], r["foms"])):
         vec = [unhex(x) for x in p]
@@ -566,7 +571,7 @@ def gen_e2e(rng, search, cores=1, thorough=False, force_reject=False, force_chun
         case["refit"] = True
     if (search == "drawer" and (force_reject or rng.random() < 0.5)) or \
             search in ("pyswarms_global", "pyswarms_local") or \
-            (search in ("emcee", "dynesty_static", "dynesty_dynamic") and (cores >= 2 or rng.random() < 0.5)):
+            (search in ("emcee", "dynesty_static", "dynesty_dynamic") and (cores >= 2 or force_reject or rng.random() < 0.5)):
         # a region where the fit raises FitException: the initializer must drop those draws
         # without shifting the likelihoods of the remaining ones
         path, (kind, k) = rng.choice([lf for lf in leaves(spec["root"]) if lf[1][0] == "p"])
@@ -1062,13 +1067,14 @@ def gen_cases(ctx):
             plan += [(s, 1)] * 6
             if s in MULTICORE:
                 plan += [(s, 2)] * 3
-    rets = ["np64", "float", "np0d"]
+    combos = [("np0d", "nan"), ("np64", "fitexc"), ("float", "nan"), ("np0d", "fitexc"), ("np64", "nan"), ("float", "fitexc")]
     for j, (s, cores) in enumerate(plan):
+        ret, mode = combos[(j + 5) % 6]       # quick: emcee at one core gets (0-d array, NaN region), by construction
         # by construction: shapes, the type of the returned likelihood and FitException / NaN regions rotate over the
         # plan; a search object that has fitted another model before: drawer, lbfgs, dynesty_static at one core (quick)
         prefit = (cores == 1 and s in ("drawer", "lbfgs", "dynesty_static")) if not thorough else (j % 3 == 0)
         e2e.append(gen_e2e(rng, s, cores, thorough, force_chunks=(cores == 1), shape=SHAPES[(j + 1) % len(SHAPES)],
-                           prefit=prefit, ret=rets[j % 3], reject_mode=("nan" if j % 2 else "fitexc")))
+                           prefit=prefit, ret=ret, reject_mode=mode, force_reject=(s in ("emcee", "dynesty_static") and cores == 1)))
     for j in range(1 if not thorough else 4):
         e2e.append(gen_e2e(rng, "drawer", 1, thorough, force_reject=True, shape=SHAPES[(j + 3) % len(SHAPES)],
                            reject_mode="nan", ret="np0d"))
